@@ -222,21 +222,21 @@ type Stats struct {
 }
 
 type sim struct {
-	cfg      Config
-	tasks    [maxTasks]*task
-	ntasks   int
-	wg       sync.WaitGroup
-	total    int64
-	nextAt   int64
-	parkedT  *task
-	st       Stats
-	pairs    [pairSlots]uint32
-	npairs   int
-	pctAt    [8]int64
-	pctN     int
-	pctLow   int
-	swHash   uint64
-	parkIn   int64
+	cfg     Config
+	tasks   [maxTasks]*task
+	ntasks  int
+	wg      sync.WaitGroup
+	total   int64
+	nextAt  int64
+	parkedT *task
+	st      Stats
+	pairs   [pairSlots]uint32
+	npairs  int
+	pctAt   [8]int64
+	pctN    int
+	pctLow  int
+	swHash  uint64
+	parkIn  int64
 }
 
 const (
